@@ -278,6 +278,37 @@ pub fn run_case(i: usize, rng: &mut impl RngCore, thorough: bool) -> Outcome {
             });
         },
         // ---- F5: honest proofs against hostile statements (promises at boundaries, identity commitments, other degree)
+        9 if (i / 10) % 25 == 0 => {
+            // a long, valid, mixed-size batch: beyond one internal chunk, largest member first / last / in the middle
+            o.family = "batch";
+            let nn = [2usize, 4][(i / 250) % 2];
+            let k = 257 + (i / 250) % 50;
+            let big_at = [0usize, k - 1, 256, 128][(i / 500) % 4];
+            let mut pool: Vec<(Case, Proof)> = vec![];
+            for (mm, cc) in [(4usize, 4usize), (1, 1), (2, 2), (1, 4), (2, 8)] {
+                let mut r = &mut *rng;
+                let case = Case::random(Cfg::new(nn, mm, cc, ds), VALUE_CLASSES[(i + mm) % 6], PROMISE_CLASSES[(i + cc) % 5], false, &mut r);
+                let mut prng = FaultRng::new(RngKind::Healthy(r.next_u64()));
+                if let Ok(p) = case.prove(&mut prng) {
+                    pool.push((case, p));
+                }
+            }
+            if pool.len() < 5 {
+                o.family = "skipped";
+                return o;
+            }
+            let idx: Vec<usize> = (0..k).map(|j| if j == big_at { 0 } else { 1 + (j + i) % 4 }).collect();
+            let mut ts: Vec<Transcript> = idx.iter().map(|x| pool[*x].0.transcript()).collect();
+            let sts: Vec<Stmt> = idx.iter().map(|x| pool[*x].0.statement()).collect();
+            let proofs: Vec<Proof> = idx.iter().map(|x| pool[*x].1.clone()).collect();
+            o.input_bytes = proofs.iter().map(|p| p.to_bytes().len()).sum();
+            o.elements = o.input_bytes / 32;
+            o.table = nn * 8;
+            o.descr = json!({"family": "batch", "valid_batch_of": k, "bits": nn, "degree": ds, "largest_member_at": big_at, "mode": action_name(action)});
+            observe(&mut o, || {
+                let _ = RangeProof::verify_batch(&mut ts, &sts, &proofs, action);
+            });
+        },
         _ => {
             o.family = "statement";
             let Some((case, proof)) = honest(rng) else {
